@@ -31,7 +31,9 @@ inductive PType where
 /-- `definition_type_to_protobuf_type`; `Option`/`Default` wrappers are transparent (the `Kind` of
     the component does not matter).  The descriptor cannot tell `u64` from `i64` (both hold every
     `i64` the codec hands over), so for 64-bit types the signedness is taken from the rule of the
-    converter (C15): a 64-bit INTEGER is `i64` exactly when its lower bound is negative. -/
+    converter (C15): a 64-bit INTEGER is `i64` exactly when its lower bound is negative
+    (`ptype_generatedTy` in `Proto/IntWidthLemmas.lean`: for every constraint with a non-empty root
+    this is `definition_type_to_protobuf_type` of the Rust type the converter selects). -/
 def ptype : Ty → PType
   | .bool => .bool
   | .null => .bytes
